@@ -40,7 +40,7 @@ theorem selectingNext_easy {sh : Shared D L} {s : Selecting} (h : ShInv env G sh
   unfold selectingNext
   refine selResOK_ite (fun _ => leafSpin _) fun c1 => ?_
   refine selResOK_ite (fun _ => leafTo _ (cancel_inv h)) fun c2 => ?_
-  refine selResOK_ite (fun _ => leafTo _ (cancel_inv (h.congr rfl rfl rfl rfl rfl))) fun c3 => ?_
+  refine selResOK_ite (fun _ => leafTo _ (cancel_inv (h.congr rfl rfl rfl rfl rfl rfl))) fun c3 => ?_
   refine selResOK_ite (fun _ => leafTo _ (cancel_inv h)) fun c4 => ?_
   have hard : ∀ {P : Prop}, (ev.code == KC.down || ev.code == KC.space || ev.code == KC.j || ev.code == KC.k ||
       ev.code == KC.left || ev.code == KC.pageUp || ev.code == KC.right || ev.code == KC.pageDown ||
@@ -81,11 +81,11 @@ theorem processKey_selecting_of (hE : EnvOK env G) {e : Editor D L} {s : Selecti
   cases ht : x.trans with
   | toState st =>
     simp only [applyTrans]
-    exact tail_ok hE (sh := { x.shared with last := .absorb }) (st := st) (h1.congr rfl rfl rfl rfl rfl)
+    exact tail_ok hE (sh := { x.shared with last := .absorb }) (st := st) (h1.congr rfl rfl rfl rfl rfl rfl)
       ((h3 st ht).same rfl rfl)
   | spin b =>
     simp only [applyTrans]
-    exact tail_ok hE (sh := { x.shared with last := b }) (st := .selecting x.sel) (h1.congr rfl rfl rfl rfl rfl)
+    exact tail_ok hE (sh := { x.shared with last := b }) (st := .selecting x.sel) (h1.congr rfl rfl rfl rfl rfl rfl)
       (StInv.same (st := .selecting x.sel) (h2 b ht) rfl rfl)
 
 theorem selInv_preamble {e : Editor D L} (hi : EditorInv env G e) {s : Selecting} (hst : e.state = .selecting s) :
